@@ -17,6 +17,8 @@ LEVEL_TEXT = ('Weak structural claim only: the pool path merges exactly the coun
 
 def run(ctx):
     prog = ctx.program
+    # M1 first: it does not depend on the shape of the pool branch, which A3 needs
+    rule_M1(ctx)      # what sample() hands out is inside the region contains() accepts
     rule_A3(ctx)
     rule_T8ii(ctx, 'Union.sample')
     rule_T8ii(ctx, 'NautilusBound.sample')
@@ -24,14 +26,14 @@ def run(ctx):
     rule_N2(ctx)
     rule_N3(ctx, classes={'Union', 'NautilusBound', 'Ellipsoid', 'UnitCubeEllipsoidMixture',
                           'NeuralBound', 'UnitCube'})
-    rule_M1(ctx)      # what sample() hands out is inside the region contains() accepts
     rule_V2(ctx)      # the closed-form volumes, as exact algebra
     from ..initrules import rule_I2
     rule_I2(ctx)      # counters and cache start from zero in compute() and reset()
     rule_K2(ctx, classes={'Union', 'NautilusBound', 'Ellipsoid', 'UnitCubeEllipsoidMixture',
                           'NeuralBound', 'UnitCube'})      # a cached volume is invalidated by every counter update (serial and pool)
     for q in ('Union.split', 'Union.trim'):     # counters restart when the member set changes
-        fq = prog.func(q)
+        from ..loader import helper_view
+        fq = helper_view(prog, prog.func(q))
         rule_T9(ctx, fq, ExpandingTracker(fq, G_UNION.members + ['log_v_all'],
                                           arrays={'block', 'log_v_all'}))
     for cname in ('Union', 'NautilusBound'):
